@@ -14,6 +14,7 @@
 -/
 import CB.Props.C05
 import CB.Lemmas.GenShiftsLadder
+import CB.Lemmas.GenShiftsQuery
 namespace CB.P05G
 open CB CB.Shift CB.Bits
 
@@ -250,5 +251,63 @@ theorem src_uint_wrapping_shift_exact (a : List (BitVec 64)) (hne : a ≠ []) (s
 /-- non-vacuity / evaluation: the translated ladder runs on a 3-limb value (width 192, not a power of two) -/
 example : Gen.Shifts.Uint.overflowing_shl 3 [~~~0#64, 1#64, 0#64] 65#32 = ([0#64, ~~~0#64 <<< 1, 3#64], ~~~0#64) := by decide
 example : Gen.Shifts.Uint.wrapping_shr 3 [0#64, 1#64, ~~~0#64] 200#32 = [0#64, 0#64, 0#64] := by decide
+
+/-! ## T05.G5 — the SOURCE of the bit queries over a limb slice (src/uint/bits.rs: `leading_zeros`, `trailing_zeros`,
+`trailing_ones`, `bit`; `Uint` and `BoxedUint` forward to them)
+
+A `&[Limb]` of the source is the list of its limbs, `limbs.len()` its length.  The counts of the source are `u32`s; the side
+condition `64 · len < 2^32` says they do not wrap (`Uint::BITS` itself is a `u32`). -/
+
+/-- the model's word primitives `u64::trailing_zeros` / `trailing_ones` (a 64-step recursion on `Nat`) are `BitVec.ctz`, hence
+    the translated `Limb::trailing_zeros` / `Limb::trailing_ones` -/
+theorem trailing_word_model_is_translated_source (x : BitVec 64) :
+    wtz x.toNat = (BitVec.ctz x).toNat ∧ wtz x.toNat = (Gen.Shifts.Limb.trailing_zeros x).toNat ∧
+    wto x.toNat = (Gen.Shifts.Limb.trailing_ones x).toNat :=
+  ⟨GenShifts.wtz_bv x, GenShifts.limbTrailingZeros_bridge x, GenShifts.limbTrailingOnes_bridge x⟩
+
+/-- the hand-written model of the slice queries (what T05.5 is proved about) IS the translated source, every length -/
+theorem query_model_is_translated_source (a : List (BitVec 64)) (idx : BitVec 32) (hL : 64 * a.length < 2 ^ 32) :
+    leadingZeros (GenShifts.nats a) = (Gen.Shifts.Bits.leading_zeros a).toNat ∧
+    trailingZeros (GenShifts.nats a) = (Gen.Shifts.Bits.trailing_zeros a).toNat ∧
+    trailingOnes (GenShifts.nats a) = (Gen.Shifts.Bits.trailing_ones a).toNat ∧
+    bitCt (GenShifts.nats a) idx.toNat = (Gen.Shifts.Bits.bit a idx).toNat :=
+  ⟨GenShifts.leadingZeros_bridge a hL, GenShifts.trailingZeros_bridge a hL, GenShifts.trailingOnes_bridge a hL,
+   GenShifts.bitCt_bridge a (by omega) idx⟩
+
+/-- the TRANSLATED `leading_zeros`: `BITS − bitlen (val a)`; `trailing_zeros` / `trailing_ones`: the length of the run of zero /
+    one bits from bit 0 (`BITS` when there is no other bit); `bit i`: the mask of `testBit i` (false beyond the width) -/
+theorem src_bits_query_exact (a : List (BitVec 64)) (hne : a ≠ []) (idx : BitVec 32) (hL : 64 * a.length < 2 ^ 32) :
+    (Gen.Shifts.Bits.leading_zeros a).toNat = 64 * a.length - bitlen (val (GenShifts.nats a)) ∧
+    ((Gen.Shifts.Bits.trailing_zeros a).toNat ≤ 64 * a.length ∧
+      (∀ j, j < (Gen.Shifts.Bits.trailing_zeros a).toNat → (val (GenShifts.nats a)).testBit j = false) ∧
+      ((Gen.Shifts.Bits.trailing_zeros a).toNat < 64 * a.length →
+        (val (GenShifts.nats a)).testBit (Gen.Shifts.Bits.trailing_zeros a).toNat = true)) ∧
+    ((Gen.Shifts.Bits.trailing_ones a).toNat ≤ 64 * a.length ∧
+      (∀ j, j < (Gen.Shifts.Bits.trailing_ones a).toNat → (val (GenShifts.nats a)).testBit j = true) ∧
+      ((Gen.Shifts.Bits.trailing_ones a).toNat < 64 * a.length →
+        (val (GenShifts.nats a)).testBit (Gen.Shifts.Bits.trailing_ones a).toNat = false)) ∧
+    Gen.Shifts.Bits.bit a idx = GenBits.ofBool ((val (GenShifts.nats a)).testBit idx.toNat) := by
+  have hne' : GenShifts.nats a ≠ [] := by
+    cases a with
+    | nil => exact absurd rfl hne
+    | cons _ _ => simp [GenShifts.nats]
+  have ⟨_, _, lz, _⟩ := P05.bits_spec (GenShifts.nats_WF a) hne'
+  have ⟨_, tz⟩ := P05.trailing_zeros_spec (GenShifts.nats_WF a)
+  have ⟨_, tos⟩ := P05.trailing_ones_spec (GenShifts.nats_WF a)
+  have ⟨bt, _⟩ := P05.bit_spec (GenShifts.nats_WF a) (by rw [GenShifts.nats_length]; simp only [TWO32_def]; omega)
+    (i := idx.toNat) idx.isLt
+  rw [GenShifts.leadingZeros_bridge a hL, GenShifts.nats_length] at lz
+  rw [GenShifts.trailingZeros_bridge a hL, GenShifts.nats_length] at tz
+  rw [GenShifts.trailingOnes_bridge a hL, GenShifts.nats_length] at tos
+  rw [GenShifts.bitCt_bridge a (by omega) idx] at bt
+  exact ⟨lz, tz, tos, BitVec.eq_of_toNat_eq (by rw [bt, GenBits.ofBool_toNat])⟩
+
+/-- non-vacuity / evaluation: a 3-limb value `2^64 · 6` -/
+example : (Gen.Shifts.Bits.trailing_zeros [0#64, 6#64, 0#64]).toNat = 65 := by
+  rw [← GenShifts.trailingZeros_bridge _ (by decide)]; decide
+example : Gen.Shifts.Bits.leading_zeros [0#64, 6#64, 0#64] = 125#32 := by decide
+example : (Gen.Shifts.Bits.trailing_ones [~~~0#64, 1#64, 0#64]).toNat = 65 := by
+  rw [← GenShifts.trailingOnes_bridge _ (by decide)]; decide
+example : Gen.Shifts.Bits.bit [0#64, 6#64, 0#64] 66#32 = ~~~0#64 := by decide
 
 end CB.P05G
